@@ -116,6 +116,13 @@ def r11_2(ctx: Ctx):
     from .c13 import _loop_over_listeners
     loops = [n for n in ast.walk(drv.node) if isinstance(n, ast.For) and not _loop_over_listeners(ctx, drv, n)]
     ctx.floor(rid, 'iteration loops in the driver', len(loops), 1)
+    # names that only feed a diagnostic statement (logging call / print whose value is not used)
+    diag = set()
+    for st in ast.walk(drv.node):
+        if isinstance(st, ast.Expr) and isinstance(st.value, ast.Call) and C.is_diagnostic_call(ctx, drv, st.value):
+            for a in list(st.value.args) + [k.value for k in st.value.keywords]:
+                if not any(isinstance(x, ast.Call) and ctx.pta.internal_callees(drv, x) for x in ast.walk(a)):
+                    diag.update(id(x) for x in ast.walk(a))
     for lp in loops:
         # upward-exposed uses of names that the body also assigns = loop-carried locals
         assigned: Set[str] = set()
@@ -158,7 +165,7 @@ def r11_2(ctx: Ctx):
                          and isinstance(st.targets[0], ast.Name) and st.targets[0].id in renames}
             uses = [n for n in ast.walk(drv.node) if isinstance(n, ast.Name) and n.id in names and
                     isinstance(n.ctx, ast.Load) and n is not it.args[0] and n is not lp.iter.args[0]
-                    and id(n) not in alias_rhs]
+                    and id(n) not in alias_rhs and id(n) not in diag]
             ctx.check(not uses, rid, drv.short, drv.loc(), 'the batch size is used only as the loop bound',
                       f'the batch size {pn} is also used at line(s) {sorted({u.lineno for u in uses})}: the work done '
                       f'per trip depends on how iterations are batched', key=f'{rid}::{drv.short}::number-used')
@@ -172,11 +179,17 @@ def r11_2(ctx: Ctx):
     from .c13 import solver_state
     state = solver_state(ctx)
     lst = roles.listener_methods()
-    outside = [st for st in drv.node.body if st not in loops and
-               not (isinstance(st, ast.For) and _loop_over_listeners(ctx, drv, st))]
+    def walk_outside(node):
+        # everything of the driver that is not inside an iteration loop or a notification loop (whatever try/with
+        # blocks wrap the loops)
+        for ch in ast.iter_child_nodes(node):
+            if any(ch is lp_ for lp_ in loops) or (isinstance(ch, ast.For) and _loop_over_listeners(ctx, drv, ch)):
+                continue
+            yield ch
+            yield from walk_outside(ch)
     n_out = 0
-    for st in outside:
-        for n in ast.walk(st):
+    for _once in (0,):
+        for n in walk_outside(drv.node):
             if isinstance(n, ast.Call):
                 for c in ctx.pta.internal_callees(drv, n):
                     if roles.fq(c) in lst:
